@@ -279,7 +279,7 @@ Theorem render_short_no_message :
 Proof. exact short_no_message_l. Qed.
 Print Assumptions render_short_no_message.
 
-(* verbose: the body prints every binding of the field map exactly once, each as FIELD_BEG key "="
+(* verbose: the body prints every pair of the collected fields exactly once, each as FIELD_BEG key "="
    value "\n" (indentation), in some order *)
 Theorem render_verbose_body_permutation :
   forall cfg m, exists l, Permutation.Permutation l m /\ verbose_body cfg m = concat (map (vl cfg) l).
@@ -434,9 +434,9 @@ Theorem render_host_independent :
 Proof. exact src_host_independent. Qed.
 Print Assumptions render_host_independent.
 
-(* ... the other three are not, as long as get_monotonic_usec asks the HOST for its boot id first and gives
-   up when that fails although the journal holds the value (FINDING host_boot_id_unreadable;
-   cfg_with_host_call = the scraped configuration with that call) *)
+(* ... the other three were not before the repair ab7eeab4 (regression lemma; cfg_with_host_call = the scraped
+   configuration with the call of sd_id128_get_boot that get_monotonic_usec made before it asked the journal:
+   it gave up when the HOST's boot id was unreadable although the journal holds the value) *)
 Theorem render_host_dependence_refuted :
   exists e off,
     next_entry cfg_with_host_call (mkEnv off true) OShortMonotonic e <> next_entry cfg_with_host_call (mkEnv off false) OShortMonotonic e /\
@@ -448,16 +448,18 @@ Theorem render_host_dependence_refuted :
 Proof. exact host_dependence_refuted_l. Qed.
 Print Assumptions render_host_dependence_refuted.
 
-(* without that call (the repaired get_monotonic_usec) every rendering is a function of entry and zone *)
+(* without that call every rendering is a function of entry and zone ... *)
 Theorem render_host_independent_without_the_call :
   forall cfg off b1 b2 o e, cfg_mono_needs_host cfg = false ->
   next_entry cfg (mkEnv off b1) o e = next_entry cfg (mkEnv off b2) o e.
 Proof. exact host_independent_all_l. Qed.
 Print Assumptions render_host_independent_without_the_call.
 
-Example render_host_independent_repaired_cfg : cfg_mono_needs_host (set_needs_host false src_cfg) = false.
-Proof. reflexivity. Qed.
-Print Assumptions render_host_independent_repaired_cfg.
+(* ... and the current source makes no such call *)
+Theorem render_src_host_independent :
+  forall off b1 b2 o e, next_entry src_cfg (mkEnv off b1) o e = next_entry src_cfg (mkEnv off b2) o e.
+Proof. intros. apply host_independent_all_l. reflexivity. Qed.
+Print Assumptions render_src_host_independent.
 
 (* when the host's boot id is readable (or is not asked for) the export rendering is the one of the
    theorems above *)
@@ -466,14 +468,35 @@ Theorem render_export_host_ok :
 Proof. exact host_view_ok. Qed.
 Print Assumptions render_export_host_ok.
 
-(* FINDING verbose_multivalued_field: verbose keeps one value per field name (HashMap): a stored data
-   object of a multi-valued field is missing from the verbose text although export prints it *)
+(* FINDING verbose_multivalued_field (repaired, 98ec3000; regression lemma about cfg_with_hashmap = the scraped
+   configuration with the HashMap next_verbose used before): one value per field name, so a stored data
+   object of a multi-valued field was missing from the verbose text although export prints it *)
 Theorem render_verbose_multivalued_refuted :
   exists e k v b ev, wf_entry e /\ In (k, v) (e_fields e) /\
-    next_entry src_cfg ev OVerbose e = NFound b /\ ~ infix (vline src_cfg k v) b /\
+    next_entry cfg_with_hashmap ev OVerbose e = NFound b /\ ~ infix (vline cfg_with_hashmap k v) b /\
     infix (print_field_safe (k, v)) (render_export e).
 Proof. exact verbose_multivalued_refuted_l. Qed.
 Print Assumptions render_verbose_multivalued_refuted.
+
+(* the repaired next_verbose keeps every data object: each of the enumerated ones has its line
+   FIELD_BEG name "=" value "\n" in the text (value = the stored bytes, _SELINUX_CONTEXT without its trailing cruft) *)
+Theorem render_verbose_all_fields :
+  forall cfg ev e f, cfg_verbose_multi cfg = true -> cfg_formats_ok cfg = true -> keys_wf (e_fields e) ->
+  In f (firstn (cfg_emerg_verbose cfg) (e_fields e)) ->
+  exists b, render_verbose cfg ev e = Some b /\ infix (vline cfg (fst f) (vval cfg f)) b.
+Proof. exact verbose_all_fields_l. Qed.
+Print Assumptions render_verbose_all_fields.
+
+Theorem render_src_verbose_keeps_all : cfg_verbose_multi src_cfg = true.
+Proof. reflexivity. Qed.
+Print Assumptions render_src_verbose_keeps_all.
+
+Example render_verbose_multivalued_repaired :
+  cfg_verbose_multi (set_verbose_multi true src_cfg) = true /\
+  exists b, next_entry (set_verbose_multi true src_cfg) (mkEnv 0%Z true) OVerbose w_entry_multi = NFound b /\
+            infixb (s2b "    SYSLOG_FACILITY=DHCP4" ++ [NL] ++ s2b "    SYSLOG_FACILITY=DHCP6" ++ [NL]) b = true.
+Proof. exact verbose_multivalued_repaired. Qed.
+Print Assumptions render_verbose_multivalued_repaired.
 
 Example render_witness_renderings :
   let ev := mkEnv (-12600)%Z true in
@@ -507,25 +530,24 @@ Example render_short_tail_spec_hyps :
 Proof. exact short_tail_spec_example. Qed.
 Print Assumptions render_short_tail_spec_hyps.
 
-(* verbose: field order.  The map has pairwise different keys; the body is the lines of the names of
-   FIELD_ORDER_VERBOSE the map binds, in table order, then the other bindings sorted by (name, value),
-   then _SOURCE_REALTIME_TIMESTAMP; every line is FIELD_BEG name "=" value "\n". *)
-Theorem render_verbose_map_keys_distinct : forall cfg ev e, NoDup (map fst (verbose_map cfg ev e)).
-Proof. exact verbose_map_keys. Qed.
-Print Assumptions render_verbose_map_keys_distinct.
-
+(* verbose: field order.  The body is the lines of the names of FIELD_ORDER_VERBOSE, in table order (all values
+   of a name, in enumeration order), then the other pairs sorted by (name, value), then _SOURCE_REALTIME_TIMESTAMP;
+   every line is FIELD_BEG name "=" value "\n". *)
 Theorem render_verbose_body_order :
-  forall cfg m, NoDup (cfg_order cfg) -> NoDup (map fst m) ->
+  forall cfg m, NoDup (cfg_order cfg) ->
   let m1 := filter (key_neq (cfg_k_source_rt cfg)) m in
   verbose_body cfg m
   = concat (map (vl cfg) (ordered_part (cfg_order cfg) m1
                           ++ sort_fields (unordered_part (cfg_order cfg) m1)
-                          ++ match assoc (cfg_k_source_rt cfg) m with
-                             | Some s => [(cfg_k_source_rt cfg, s)]
-                             | None => []
-                             end)).
+                          ++ map (pair (cfg_k_source_rt cfg)) (values_of (cfg_k_source_rt cfg) m))).
 Proof. exact verbose_body_order_l. Qed.
 Print Assumptions render_verbose_body_order.
+
+(* with the HashMap of the code before 98ec3000 the names were pairwise different (one value per name) *)
+Theorem render_verbose_map_keys_distinct :
+  forall cfg ev e, cfg_verbose_multi cfg = false -> NoDup (map fst (verbose_map cfg ev e)).
+Proof. exact verbose_map_keys. Qed.
+Print Assumptions render_verbose_map_keys_distinct.
 
 Theorem render_verbose_rest_sorted : forall l, Sorted.Sorted field_le (sort_fields l).
 Proof. exact sort_fields_sorted_l. Qed.
@@ -536,13 +558,13 @@ Proof. exact src_order_nodup. Qed.
 Print Assumptions render_src_order_nodup.
 
 Example render_verbose_order_example :
-  next_entry src_cfg (mkEnv 0%Z true) OVerbose w_entry1
+  next_entry (set_order [s2b "_PID"; s2b "MESSAGE"; s2b "__MONOTONIC_TIMESTAMP"] src_cfg) (mkEnv 0%Z true) OVerbose w_entry1
   = NFound (s2b "Fri 2023-12-15 23:44:03.814918 +00:00 [s=301da6bc860f44808d5e36ddb58400db;i=6bd;b=1809e3bbbb334d62937ce8827b16b5f0;m=3217e43cc;t=60c94f9ace606;x=4e442f8e0c086ec5]" ++ [NL]
-            ++ s2b "    _TRANSPORT=syslog" ++ [NL] ++ s2b "    _HOSTNAME=fink" ++ [NL] ++ s2b "    PRIORITY=6" ++ [NL]
-            ++ s2b "    _PID=1170" ++ [NL] ++ s2b "    _COMM=rtkit-daemon" ++ [NL]
+            ++ s2b "    _PID=1170" ++ [NL]
             ++ s2b "    MESSAGE=Demoting known real-time threads." ++ [NL]
-            ++ s2b "    SYSLOG_IDENTIFIER=rtkit-daemon" ++ [NL] ++ s2b "    SYSLOG_PID=1170" ++ [NL]
             ++ s2b "    __MONOTONIC_TIMESTAMP=13446824908" ++ [NL]
+            ++ s2b "    PRIORITY=6" ++ [NL] ++ s2b "    SYSLOG_IDENTIFIER=rtkit-daemon" ++ [NL] ++ s2b "    SYSLOG_PID=1170" ++ [NL]
+            ++ s2b "    _COMM=rtkit-daemon" ++ [NL] ++ s2b "    _HOSTNAME=fink" ++ [NL] ++ s2b "    _TRANSPORT=syslog" ++ [NL]
             ++ s2b "    _SOURCE_REALTIME_TIMESTAMP=1702683843818187" ++ [NL]).
 Proof. exact verbose_order_example. Qed.
 Print Assumptions render_verbose_order_example.
